@@ -7,7 +7,8 @@
      (sup-gs TY CLASS)      goderive's answer for a type whose fields are all exported.
 
    model_ok = TEXT is exactly the model's expression (S) and RT is what the model's evaluator
-              computes, up to addresses (B);
+              computes, up to addresses (B) - where the evaluator rejects the text (outside the
+              guard: infinite floats, unexported fields) the Go compiler must reject it too;
    spec_ok  = RT is structurally equal (C02's spec_eq) to VAL: the round trip. *)
 From Coq Require Import String.
 From Verif Require Import Base Sexp Go.Ty Go.Val Go.Equal GoStr.Model GoStr.Geval GoStr.Match.
@@ -153,6 +154,8 @@ Definition eval06 (e : sexp) : verdict :=
             let s_ok := match m with Ok g => gmatch g text | _ => false end in
             let b_ok := match mv, rt with
                         | Some a, Some b => sp_true (spec_eq [] t a b)
+                        (* the evaluator rejects the text: so must the Go compiler *)
+                        | None, None => sym_is "nocompile" rts
                         | _, _ => false
                         end in
             {| v_known := typed;
